@@ -81,6 +81,8 @@ def app_image(n, reset_vector, salt):
     r = rng(PROP, "app", n, salt)
     b = bytearray(r.randbytes(n))
     struct.pack_into("<8I", b, 0, 0x20008000, reset_vector, *[reset_vector + 0x10 + 4 * k for k in range(6)])
+    if n > 0x40C:
+        b[0x40C] = 0xFE  # DSC families read a life-cycle byte from the application's flash configuration field: keep it a defined value (OEM_OPEN)
     return bytes(b)
 
 
